@@ -153,7 +153,7 @@ func checkC16(c *Ctx) {
 	c.Obs("interval_classes", ovSeen)
 
 	// (c) Union2D pruned vs EvaluateSlow
-	nUni := c.Pick(400, 20000)
+	nUni := c.Pick(3000, 60000)
 	nPts := c.Pick(400, 1500)
 	blends := []string{"default", "PolyMin", "RoundMin", "ChamferMin", "ExpMin"}
 	type uniCase struct {
@@ -206,7 +206,21 @@ func checkC16(c *Ctx) {
 			ops = append(ops, cs)
 			desc = append(desc, fmt.Sprintf("%s@(%.4g,%.4g)", d, t.X, t.Y))
 		}
-		u0 := sdf.Union2D(ops...)
+		// Union2D documents that nil operands are stripped: interleave some (positions matter for any per-operand bookkeeping)
+		args := ops
+		if ru.P(0.35) {
+			args = nil
+			for _, o := range ops {
+				for ru.P(0.3) {
+					args = append(args, nil)
+				}
+				args = append(args, o)
+			}
+			if ru.Bool() {
+				args = append(args, nil)
+			}
+		}
+		u0 := sdf.Union2D(args...)
 		u, ok := u0.(*sdf.UnionSDF2)
 		if !ok {
 			return
